@@ -221,6 +221,12 @@ from . import vocab
 
 from . import inventory
 
+
+def _c03_o4(W, ob):
+    from . import c03 as _m
+    return _m.o4(W, ob)
+
+
 OBLIGATIONS = [
     ('C06.O1', 'broadcast cursor', 'next_spectator_frame is written only by the broadcast (+1, after the sends of its frame, '
      'once per fetched frame); frames are fetched with confirmed_inputs(cursor) and sent only while cursor <= confirmed frame.', o1),
@@ -233,6 +239,7 @@ OBLIGATIONS = [
      'socket; the spectator arm of disconnect_player_at_frame only stops the endpoint.', o5),
     ('C06.O6', 'same cut-off predicate on host and spectator (= C03.O2)', 'see C03.O2', c03.o2),
     ('C06.O7', 'the host->spectator stream is the acknowledged input stream (= C05.O3)', 'spectators receive confirmed inputs over the same resend-until-acknowledged stream as players: last_acked_input -- the delta base and the continuity check of the next packet -- is the NEWEST acknowledged input, set only where inputs leave the resend queue; see C05.O3', _c05_o3),
+    ('C06.O8', 'last_frame provenance (= C03.O4)', 'the cut-off a spectator is told is the last frame the host really received from that player: local_connect_status[h].last_frame is stored only from queued inputs; see C03.O4', _c03_o4),
     ('C06.H', 'helpers the rules above rely on', 'the bodies of the helpers named by this property\'s rules compute what the rules assume (registry_counts, confirmed_input); see rules/helpers.py', helpers.bundle('registry_counts', 'confirmed_input', 'from_inputs')),
     ('C06.I', 'initial state', 'every constructor gives the fields this property\'s rules interpret (NULL_FRAME = none / nothing yet, 0 = first frame, latches open, typestate start) the value listed in tables/initial_state.json; every field compared with NULL_FRAME anywhere is listed; see rules/initial.py', initial.rule_for('C06')),
     ('C06.C', 'lossy integer casts', 'every sign-changing cast (signed -> unsigned; NULL_FRAME is -1) and every narrowing cast to < 32 bits or from 128 bits in the crate is in range by a dominating guard, by the shape of its operand, or listed with a reason in tables/casts.json; see rules/casts.py', casts.rule),
@@ -241,4 +248,5 @@ OBLIGATIONS = [
     ('C06.S', 'state inventory', 'every field of the structs this property\'s rules read (tables/state.json) is known, and is written only by its reviewed writers (or helpers only they call): a new field is new state across calls -- a cache, a flag, a stored deadline -- that nothing has shown to stay in step; a new writer is a second place that resets, re-arms or moves something; see rules/inventory.py', inventory.state_rule_for('C06')),
     ('C06.K', 'call inventory', 'every reviewed call of a function that writes state (tables/call_edges.json, callers in the structs this property\'s rules read) is still made, directly or through helpers: a call deleted as redundant is reported; see rules/inventory.py', inventory.call_rule_for('C06')),
     ('C06.A', 'expression inventory', 'every arithmetic expression handed to a call or stored in a field, and what every closure given to an iterator adaptor / collection method returns, is one of the reviewed expressions of its function (tables/expressions.json; linear / guard normal forms, no local names): a changed literal, operator, operand order, factor, predicate or sort key is reported; see rules/inventory.py', inventory.expr_rule_for('C06')),
+    ('C06.Z', 'constants and type shapes', 'every named constant keeps its reviewed value and every type its reviewed shape -- variants and fields in order, with their types (tables/shapes.json): a ring size, sentinel, default or wire constant changed by value, a frame or checksum stored in a narrower type, a variant or field added, removed or reordered is reported; see rules/inventory.py', inventory.shape_rule),
 ]
